@@ -1165,6 +1165,12 @@ class Executor:
         kwargs = {}
         for k in node.keywords:
             if k.arg is None:
+                if isinstance(k.value, ast.Dict) and k.value.keys and all(isinstance(x, ast.Constant) and isinstance(x.value, str) for x in k.value.keys):
+                    # **{"from": e, ...}: a dict display with constant string keys is keyword arguments spelled differently
+                    # (used for names that are Python keywords); evaluated left to right like keywords
+                    for kk, vv in zip(k.value.keys, k.value.values):
+                        kwargs[kk.value] = self.ev_arg(vv, st)
+                    continue
                 kv = self.ev(k.value, st)
                 if getattr(kv, "is_own_kwargs", False):
                     # forwarding this function's own **kwargs: extra keyword arguments nobody names (the contracts of the
